@@ -6,8 +6,13 @@ import contextlib
 import io
 import multiprocessing as mp
 import os
+import shutil
+import tempfile
 import time
 import traceback
+from pathlib import Path
+
+_WORK = Path(__file__).resolve().parent.parent / ".work"
 
 
 def quiet(fn, *a, **k):
@@ -21,9 +26,11 @@ def synth(block, n, strategy_name):
     return quiet(sp.synthesize_trials, block, n, getattr(sp, strategy_name))
 
 
-def _child(conn, fn, arg):
+def _child(conn, fn, arg, scratch=None):
     try:
         os.environ["PYTHONWARNINGS"] = "ignore"
+        if scratch:
+            os.chdir(scratch)       # the library writes <uuid>.cnf into the cwd; a killed worker would leave it behind
         res = fn(arg)
         conn.send(("ok", res))
     except BaseException as e:          # noqa
@@ -35,6 +42,15 @@ def _child(conn, fn, arg):
 def pmap(fn, args, jobs=12, timeout=60.0):
     """-> list of (status, result) aligned with args; status in ok / exc / timeout.  fn must be a module-level function."""
     ctx = mp.get_context("fork")
+    _WORK.mkdir(parents=True, exist_ok=True)
+    scratch = tempfile.mkdtemp(prefix="cwd-", dir=_WORK)
+    try:
+        return _pmap(ctx, fn, args, jobs, timeout, scratch)
+    finally:
+        shutil.rmtree(scratch, ignore_errors=True)
+
+
+def _pmap(ctx, fn, args, jobs, timeout, scratch):
     out = [None] * len(args)
     pending = list(enumerate(args))
     running = {}
@@ -42,7 +58,7 @@ def pmap(fn, args, jobs=12, timeout=60.0):
         while pending and len(running) < jobs:
             i, a = pending.pop(0)
             pc, cc = ctx.Pipe(duplex=False)
-            p = ctx.Process(target=_child, args=(cc, fn, a), daemon=True)
+            p = ctx.Process(target=_child, args=(cc, fn, a, scratch), daemon=True)
             p.start()
             cc.close()
             running[i] = (p, pc, time.time())
